@@ -273,14 +273,18 @@ class RuntimeAssertionFeedback(AssertionFeedback):
         """ Create a simple formatted exception message """
         assertion = "The following exception occurred:\n"
         if left.is_error:
-            if not isinstance(left.value, SandboxException):
+            # (a student's exception class may have refused to carry its feedback)
+            if (not isinstance(left.value, SandboxException)
+                    and getattr(left.value, 'feedback', None) is not None):
                 assertion += unwrap_value(left.value.feedback._get_message())
             else:
                 assertion += str(left.value)
             #assertion += self.report.format.output(str(left.value))
             self.suppress_runtime_error(left.value)
         if right.is_error:
-            if not isinstance(right.value, SandboxException):
+            # (a student's exception class may have refused to carry its feedback)
+            if (not isinstance(right.value, SandboxException)
+                    and getattr(right.value, 'feedback', None) is not None):
                 assertion += unwrap_value(right.value.feedback._get_message())
             else:
                 assertion += str(right.value)
